@@ -154,6 +154,7 @@ class C14(Prop):
     constants = {'TINY_ABS': TINY, 'C_EPSALG': C_EPSALG, 'C_DEA3': C_DEA3, 'C_DEA_EPSALG': C_DEA_EPSALG, 'FLOOR': FLOOR,
                  'FLOOR_SLACK': FLOOR_SLACK, 'NE_MAX': NE_MAX, 'NONTRIV_B': NONTRIV_B, 'GUARD_WIDEN': 4}
     examples = {'quick': 3000, 'thorough': 20000}
+    fuzz = {'thorough': 30000}        # atheris executions (secondary engine, thorough tier)
 
     def strategy(self, tier):
         return st.one_of(geo_stream(), random_stream(), random_stream())
